@@ -73,10 +73,16 @@ type outEval struct {
 	Named    map[string]string // name -> regular expression (full match) of a named language
 	Problems []string
 	active   map[*ssa.Function]int
+	// Markers: compile every term as one private-use symbol (a placeholder) instead of its guard language; the
+	// skeleton of the output is then compared with a specification over the same placeholders
+	Markers   bool
+	pseudo    map[string]int  // pseudo-term keys (fields of struct parameters, range elements) -> term id
+	PseudoKey map[int]string  // term id -> key
+	termForms map[int][]*Form // term key -> the conditions under which it was written
 }
 
 func newOutEval(p *Program, s *Summarizer) *outEval {
-	return &outEval{p: p, s: s, active: map[*ssa.Function]int{}, Named: map[string]string{
+	return &outEval{p: p, s: s, active: map[*ssa.Function]int{}, pseudo: map[string]int{}, PseudoKey: map[int]string{}, termForms: map[int][]*Form{}, Named: map[string]string{
 		// encoding/json in HTML-safe mode: no raw '<', '>', '&', U+2028, U+2029, and no raw control characters
 		"json":    `[^<>&\x{2028}\x{2029}\x00-\x1f]*`,
 		"goquote": `"(?:[^"\\\n]|\\[\s\S])*"`,
@@ -171,11 +177,16 @@ func (oe *outEval) strLx(v ssa.Value, b *ssa.BasicBlock, fr *oframe) *lx {
 	if k, ok := constString(v); ok {
 		return lxLit(k)
 	}
-	if x, ok := fr.bind[v]; ok {
+	if x, ok := fr.bind[v]; ok && x.Kind != "term" {
 		return x
 	}
 	if t, ok := oe.s.termOf(v, fr.env); ok && !t.Lower && t.Strip == nil && !t.Unesc {
-		return &lx{Kind: "term", Term: t, Form: oe.s.blockCond(b, fr.env, "use of "+termStr(t))}
+		f := oe.s.blockCond(b, fr.env, "use of "+termStr(t))
+		if x, ok := fr.bind[v]; ok && x.Kind == "term" && x.Form != nil {
+			// an argument of the enclosing call: what the caller knew about it still holds
+			f = fAnd(x.Form, f)
+		}
+		return &lx{Kind: "term", Term: t, Form: f}
 	}
 	switch x := v.(type) {
 	case *ssa.Const:
@@ -318,9 +329,27 @@ func (oe *outEval) callLx(call *ssa.Call, idx int, b *ssa.BasicBlock, fr *oframe
 		return &lx{Kind: "named", Name: "int"}
 	}
 	if f.Blocks != nil && f.Pkg != nil && strings.HasPrefix(f.Pkg.Pkg.Path(), modulePath) {
-		return oe.inlineLx(f, c.Args, idx, call.Block(), fr)
+		res := oe.inlineLx(f, c.Args, idx, call.Block(), fr)
+		if oe.Markers && len(c.Args) == 1 && isStringish(c.Args[0].Type()) && oe.fromURLSanitized(c.Args[0]) {
+			// skeleton mode: remember that the (escaped) text came from URLSanitized
+			return lxCat(lxLit(string(markerRune(urlMarkKey))), res)
+		}
+		return res
 	}
 	return lxAny()
+}
+
+// fromURLSanitized: v is URLSanitized(x).String() (possibly through conversions).
+func (oe *outEval) fromURLSanitized(v ssa.Value) bool {
+	e := oe.s.pv.Of(v)
+	found := false
+	e.Walk(func(x *Expr) bool {
+		if x.Op == "call" && x.CalleeName() == modulePath+".URLSanitized" {
+			found = true
+		}
+		return true
+	})
+	return found
 }
 
 // inlineLx: the union over the returns of a repository function of the language of result #idx.
@@ -343,6 +372,20 @@ func (oe *outEval) inlineLx(f *ssa.Function, args []ssa.Value, idx int, b *ssa.B
 			}
 		} else if isStringish(prm.Type()) || isByteSlice(prm.Type()) {
 			fr2.bind[prm] = oe.strLx(args[i], b, fr)
+		} else if rc := oe.s.regexOf(args[i]); rc != nil {
+			// a pattern passed as an argument: bound for the evaluation of this call
+			if oe.s.RegexParams == nil {
+				oe.s.RegexParams = map[ssa.Value]*RegexConst{}
+			}
+			old, had := oe.s.RegexParams[prm]
+			oe.s.RegexParams[prm] = rc
+			defer func(prm ssa.Value) {
+				if had {
+					oe.s.RegexParams[prm] = old
+				} else {
+					delete(oe.s.RegexParams, prm)
+				}
+			}(prm)
 		}
 	}
 	oe.active[f]++
@@ -401,7 +444,7 @@ func (oe *outEval) symSetAt(v ssa.Value, b *ssa.BasicBlock) *relang.Set {
 			return "miss", true
 		}
 		return "", false
-	}, TagOf: func(ssa.Value) string { return "" }})
+	}, TagOf: func(ssa.Value) string { return "inner" }, Max: 60000})
 	for _, l := range leaves {
 		if l.Effect != "hit" && l.Effect != "miss" {
 			return nil
@@ -424,6 +467,20 @@ func (oe *outEval) symSetAt(v ssa.Value, b *ssa.BasicBlock) *relang.Set {
 func (oe *outEval) charLx(v ssa.Value, b *ssa.BasicBlock) *lx {
 	if k, ok := constInt(v); ok {
 		return lxLit(string(rune(k)))
+	}
+	// a byte picked from a constant string ("0123456789ABCDEF"[i]): one of its characters
+	if ix, ok := v.(*ssa.Index); ok {
+		if k, ok := constString(ix.X); ok && k != "" {
+			asciiOnly := true
+			for i := 0; i < len(k); i++ {
+				if k[i] >= 0x80 {
+					asciiOnly = false
+				}
+			}
+			if asciiOnly {
+				return &lx{Kind: "set", Set: relang.SetOfString(k)}
+			}
+		}
 	}
 	if set := oe.symSetAt(v, b); set != nil {
 		return &lx{Kind: "set", Set: set}
@@ -534,6 +591,12 @@ func (oe *outEval) register(x *lx, L *Lang, seen map[*lx]bool) error {
 	case "set":
 		L.AddSet(x.Set)
 	case "term":
+		// a term that is part of the result: remember under which condition it is written
+		oe.termForms[x.Term.Key()] = append(oe.termForms[x.Term.Key()], x.Form)
+		if oe.Markers {
+			L.AddString(string(markerRune(x.Term.Key())))
+			break
+		}
 		if err := registerSumm(L, oe.s, x.Form); err != nil {
 			return err
 		}
@@ -582,6 +645,10 @@ func (oe *outEval) compile(x *lx, L *Lang, memo map[*lx]*relang.DFA) (*relang.DF
 	case "named":
 		d = L.FullRe(oe.Named[x.Name])
 	case "term":
+		if oe.Markers {
+			d = relang.Literal(L.A, string(markerRune(x.Term.Key())))
+			break
+		}
 		per, _ := splitByParam(x.Form)
 		f := per[x.Term.Key()]
 		if f == nil {
@@ -631,12 +698,19 @@ func (oe *outEval) compile(x *lx, L *Lang, memo map[*lx]*relang.DFA) (*relang.DF
 		g := relang.NewGraph(L.A)
 		in := map[*ssa.BasicBlock]int{}
 		out := map[*ssa.BasicBlock]int{}
+		// a counting loop whose condition holds on entry (for shift := 20; shift >= 0; …) runs at least once: its
+		// header gets a second copy for the entry from outside, which can only go into the body
+		inEntry := map[*ssa.BasicBlock]int{}
+		outEntry := map[*ssa.BasicBlock]int{}
 		var accept []int
 		for _, b := range bs.fn.Blocks {
 			in[b] = g.NewState()
+			if firstIterationCertain(b) {
+				inEntry[b] = g.NewState()
+			}
 		}
-		for _, b := range bs.fn.Blocks {
-			cur := in[b]
+		process := func(b *ssa.BasicBlock, start int) (int, error) {
+			cur := start
 			pcs := bs.pieces[b]
 			k := 0
 			for _, ins := range b.Instrs {
@@ -646,7 +720,7 @@ func (oe *outEval) compile(x *lx, L *Lang, memo map[*lx]*relang.DFA) (*relang.DF
 				if k < len(pcs) && pcs[k].At == ins {
 					pd, err := oe.compile(pcs[k].X, L, memo)
 					if err != nil {
-						return nil, err
+						return 0, err
 					}
 					nx := g.NewState()
 					g.Embed(cur, nx, pd)
@@ -657,11 +731,32 @@ func (oe *outEval) compile(x *lx, L *Lang, memo map[*lx]*relang.DFA) (*relang.DF
 					accept = append(accept, cur)
 				}
 			}
+			return cur, nil
+		}
+		for _, b := range bs.fn.Blocks {
+			cur, err := process(b, in[b])
+			if err != nil {
+				return nil, err
+			}
 			out[b] = cur
+			if s0, ok := inEntry[b]; ok {
+				cur, err := process(b, s0)
+				if err != nil {
+					return nil, err
+				}
+				outEntry[b] = cur
+			}
 		}
 		for _, b := range bs.fn.Blocks {
 			for _, su := range b.Succs {
-				g.Eps(out[b], in[su])
+				target := in[su]
+				if s0, ok := inEntry[su]; ok && !su.Dominates(b) {
+					target = s0 // entering the loop from outside
+				}
+				g.Eps(out[b], target)
+			}
+			if oe0, ok := outEntry[b]; ok {
+				g.Eps(oe0, in[b.Succs[0]]) // first test holds: into the body only
 			}
 		}
 		d = g.DFA(in[bs.fn.Blocks[0]], accept)
@@ -685,4 +780,140 @@ func (oe *outEval) Language(x *lx, prep func(L *Lang)) (*relang.DFA, *Lang, erro
 	L.Build()
 	d, err := oe.compile(x, L, map[*lx]*relang.DFA{})
 	return d, L, err
+}
+
+// markerRune: the placeholder symbol of a term (private-use area).
+func markerRune(key int) rune { return rune(0xE000 + key%6000) }
+
+// fieldPathOf: v loads a (nested) field of parameter #i of fn: "i.f1.f2".
+func fieldPathOf(fn *ssa.Function, v ssa.Value) (string, bool) {
+	var path []string
+	cur := v
+	for depth := 0; depth < 6; depth++ {
+		switch x := cur.(type) {
+		case *ssa.UnOp:
+			cur = x.X
+		case *ssa.FieldAddr:
+			path = append([]string{rawFieldName(x.X.Type(), x.Field)}, path...)
+			cur = x.X
+		case *ssa.Field:
+			path = append([]string{rawFieldName(x.X.Type(), x.Field)}, path...)
+			cur = x.X
+		case *ssa.Alloc:
+			st := singleStore(x)
+			if st == nil {
+				return "", false
+			}
+			cur = st.Val
+		case *ssa.Parameter:
+			for i, prm := range fn.Params {
+				if prm == x && len(path) > 0 {
+					return fmt.Sprintf("%d.%s", i, strings.Join(path, ".")), true
+				}
+			}
+			return "", false
+		default:
+			return "", false
+		}
+	}
+	return "", false
+}
+
+// seedPseudoTerms makes string-valued fields of struct parameters, and the elements of
+// range loops over []string fields, terms of the frame (so that guards on them are summarised).
+func (oe *outEval) seedPseudoTerms(fr *oframe) {
+	id := func(key string) int {
+		if k, ok := oe.pseudo[key]; ok {
+			return k
+		}
+		k := 100 + len(oe.pseudo)
+		oe.pseudo[key] = k
+		oe.PseudoKey[k] = key
+		return k
+	}
+	for _, b := range fr.fn.Blocks {
+		for _, in := range b.Instrs {
+			v, ok := in.(ssa.Value)
+			if !ok || !isStringish(v.Type()) {
+				continue
+			}
+			if _, bound := fr.env[v]; bound {
+				continue
+			}
+			switch x := v.(type) {
+			case *ssa.UnOp:
+				if p, ok := fieldPathOf(fr.fn, x); ok {
+					fr.env[v] = Term{Param: id("field:" + p)}
+					continue
+				}
+				// element of a slice field: load of &slice[i] (range over a []string)
+				if ia, ok := x.X.(*ssa.IndexAddr); ok {
+					if p, ok := fieldPathOf(fr.fn, ia.X); ok {
+						fr.env[v] = Term{Param: id("elem:" + p)}
+					}
+				}
+			case *ssa.Extract:
+				if nx, ok := x.Tuple.(*ssa.Next); ok && x.Index == 2 {
+					if rg, ok := nx.Iter.(*ssa.Range); ok {
+						if p, ok := fieldPathOf(fr.fn, rg.X); ok {
+							fr.env[v] = Term{Param: id("elem:" + p)}
+						}
+					}
+				}
+			case *ssa.Field:
+				if p, ok := fieldPathOf(fr.fn, x); ok {
+					fr.env[v] = Term{Param: id("field:" + p)}
+				}
+			}
+		}
+	}
+}
+
+// firstIterationCertain: b is the header of a loop "for i := c0; i <op> k; …" with constants c0 and k
+// for which c0 <op> k holds: the body runs at least once.
+func firstIterationCertain(b *ssa.BasicBlock) bool {
+	if len(b.Instrs) == 0 || len(b.Succs) != 2 {
+		return false
+	}
+	iff, ok := b.Instrs[len(b.Instrs)-1].(*ssa.If)
+	if !ok {
+		return false
+	}
+	bo, ok := iff.Cond.(*ssa.BinOp)
+	if !ok {
+		return false
+	}
+	phi, ok := bo.X.(*ssa.Phi)
+	k, okk := constInt(bo.Y)
+	if !ok || !okk || phi.Block() != b || len(phi.Edges) != 2 {
+		return false
+	}
+	isHeader := false
+	var c0 int64
+	found := false
+	for i, e := range phi.Edges {
+		if b.Dominates(b.Preds[i]) {
+			isHeader = true
+			continue
+		}
+		if v, ok := constInt(e); ok {
+			c0, found = v, true
+		}
+	}
+	if !isHeader || !found {
+		return false
+	}
+	switch bo.Op.String() {
+	case "<":
+		return c0 < k
+	case "<=":
+		return c0 <= k
+	case ">":
+		return c0 > k
+	case ">=":
+		return c0 >= k
+	case "!=":
+		return c0 != k
+	}
+	return false
 }
